@@ -261,8 +261,7 @@ class Proxy(object):
                     error = "invalid serializer in response: %d" % msg.serializer_id
                     log.error(error)
                     raise errors.SerializeError(error)
-                if msg.annotations:
-                    current_context.response_annotations = msg.annotations
+                current_context.response_annotations = msg.annotations
                 if self._pyroRawWireResponse:
                     return msg
                 data = serializer.loads(msg.data)
